@@ -194,9 +194,16 @@ def run_case(case):
             u_prop = [_coeff(qm, j, d) for j in range(nu + 1)]
             ref, kappa = reference_error_power(
                 field=field, fact=fact, ts=case["ts"], nu=nu, d=d, base=base, prev_mean=pm, u_prev=u_prev, u_prop=u_prop,
-                t_new=float(prop.t), dt=call["dt"], atol=call["atol"], rtol=call["rtol"], damp=call["damp"],
+                # the tolerances and damping of the *caller of the solve*, not the ones that arrive at the estimator: the
+                # number compared with one must be the documented estimate for what the user asked (seed C01-s3 swapped
+                # atol and rtol inside the rejection loop)
+                t_new=float(prop.t), dt=call["dt"], atol=atol, rtol=rtol, damp=0.0,
                 est=case["est"], norm=case["norm"], per_unit=case["per_unit"], didx=case["didx"],
             )
+            if (call["atol"], call["rtol"], call["damp"]) != (float(atol), float(rtol), 0.0):
+                viols.append(util.viol("tolerances_forwarded", f"the estimator received atol={call['atol']!r}, rtol={call['rtol']!r}, damp={call['damp']!r}; "
+                                                               f"the solve was called with atol={atol!r}, rtol={rtol!r}, damp=0", tags=tags))
+                break
             if not kappa < 1e5:
                 # the residual is rounding noise relative to its terms: any float64 evaluation is meaningless
                 obs["ill_conditioned_skipped"] = obs.get("ill_conditioned_skipped", 0) + 1
